@@ -81,15 +81,23 @@ Print Assumptions C17_lock_discipline.
 
 (* each site of that list ([unprotected_pinned] = [unprotected_writers lock_table], computed from the
    table of the current tree) is a refutation of the discipline: a conflicting pair of the table
-   with no common lock and no hand-shake.  At the time of writing: KeystoreManager.
-   UpdateManagedKeystores touches managedKeystores without km.mu; AddrManager.updateManagedAddress
-   writes addrs / branchInfo without a.mu.  The list is empty once these are repaired. *)
+   with no common lock and no hand-shake.  The list is empty since commit c8404ce. *)
 Theorem C17_lock_discipline_refuted :
   forall vw, In vw unprotected_pinned ->
     exists a1 a2, In a1 lock_table /\ In a2 lock_table /\ a_write a1 = true /\ (a_var a1, a_site a1) = vw /\
                   conflicting a1 a2 = true /\ protected a1 a2 = false.
 Proof. exact lock_discipline_refuted. Qed.
 Print Assumptions C17_lock_discipline_refuted.
+
+(* CODE AS FOUND (before c8404ce): KeystoreManager.UpdateManagedKeystores touched managedKeystores
+   without km.mu (worker goroutine, error paths) and AddrManager.updateManagedAddress wrote addrs
+   without a.mu (API): the two conflicting pairs, taken from the table generated then, share no lock *)
+Theorem C17_lock_discipline_found_refuted :
+  unprotected_writers found_excerpt =
+    [("KeystoreManager.managedKeystores", "KeystoreManager.updateManagedKeystore");
+     ("AddrManager.addrs", "AddrManager.updateManagedAddress")]%string.
+Proof. exact found_refuted. Qed.
+Print Assumptions C17_lock_discipline_found_refuted.
 
 (* non-vacuity *)
 Example C17_ex_witness_stores_ok : forall j, (j < 3)%nat -> heights_ok (store_at w1_ss j).
